@@ -265,8 +265,14 @@ def check_property(prop, tier, seed, replay=None):
         for (desc, overrides, only), rs in zip(todo, results):
             canary_report["run"] += 1
             hit = any(o["status"] == "refuted" for r in rs for o in r["obligs"])
+            # the mutant VERIFIES only when every obligation is proved and nothing was left unexecuted; a mutant whose
+            # obligations the solvers leave undecided within the budget (load, hard satisfiable query) is inconclusive
+            undecided = any(o["status"] != "proved" for r in rs for o in r["obligs"]) or \
+                any(r.get("unsupported") or r.get("errors") for r in rs) or not any(r["obligs"] for r in rs)
             if hit:
                 canary_report["refuted"] += 1
+            elif undecided:
+                canary_report.setdefault("inconclusive", []).append(desc)
             else:
                 canary_report["surviving"].append(desc)
     # a surviving canary on a tree where the un-mutated proof goes through means the engine lost its teeth
@@ -395,7 +401,8 @@ def check_property(prop, tier, seed, replay=None):
     for ln in lines:
         print(ln)
     print(f"[{prop}] tier={tier} obligations={n_obl} discharged={n_dis} skeleton={s_dis}/{s_obl} rt_scenarios={len(rt)} rt_failed={len(rt_fail)} "
-          f"canaries={canary_report['refuted']}/{canary_report['run']} level={level} exit={exit_code} "
+          f"canaries={canary_report['refuted']}/{canary_report['run']}"
+          f"{'(' + str(len(canary_report.get('inconclusive', []))) + ' inconclusive)' if canary_report.get('inconclusive') else ''} level={level} exit={exit_code} "
           f"wall={time.time() - t_start:.1f}s")
     return exit_code
 
